@@ -61,6 +61,12 @@ _arith('uint', 'u64')
 ARITH_TWINS = [k for k in KANI if k.startswith('arith_')]
 
 PROPS = {
+    'C12': dict(
+        units=['interp', 'macros'],
+        not_covered=['that 32 frames fit the default stack (a machine resource)', 'JSON -> CelValue equality (serde_json is opaque)',
+                     'rebinding / re-adding replaces: HashMap::insert semantics of BindContext / CelContext (std)'],
+        assumptions=['ScopedCounter RAII (the increment is undone on scope exit)'],
+    ),
     'C10': dict(
         units=['preresolved'],
         not_covered=['that every block the compiler emits satisfies resolve()\'s precondition (unique, defined, forward labels) and is stack-balanced: parser contracts (not reached)',
